@@ -311,6 +311,9 @@ def gen_api_cases(tier, rng):
             cases.append(col_case(fs, 0, 1, mode, "r2,m,h,s1,r9,m,h", "api", verify=opts))
         for proj, pc in ((f"i:0,{nc}", [0, nc]), (f"i:{nc + 3}", [nc + 3]), (f"i:1,{nc},0", [1, nc, 0])):
             cases.append(bat_case(fs, mode, 3, proj, pc, "api"))
+        # a projection array / name array that is given but empty (count 0) means "all columns"
+        for proj in ("i0", "n0"):
+            cases.append(bat_case(fs, mode, 3, proj, list(range(nc)), "api"))
         for g, c in ((2, 0), (0, nc), (5, nc + 1)):
             k = col_case(fs, g, c, mode, "r1", "api")
             k.mline = None
@@ -381,6 +384,13 @@ def special_pq_specs(rng):
         special.append((fs, dict(page_encodings=["PLAIN", "RLE_DICTIONARY", "PLAIN"])))
         fs = FileSpec(codec, [Col("a", typ, nullable)], [[rc.make_chunk(typ, mask, sizes)]], dict_encoded=True)
         special.append((fs, dict(page_encodings=["RLE_DICTIONARY", "PLAIN"])))
+    # page headers longer than the 256-byte window the loaders read first (Statistics with long BYTE_ARRAY min / max),
+    # PLAIN and dictionary encoded, with a dictionary page header in front
+    long_vals = [bytes([97 + i]) * (150 + 10 * i) for i in range(6)]
+    for nullable, codec, enc in ((False, 0, "PLAIN"), (True, 1, "PLAIN"), (False, 0, "RLE_DICTIONARY")):
+        rows = [None if (nullable and i == 2) else long_vals[i] for i in range(6)]
+        fs = FileSpec(codec, [Col("a", "ba", nullable)], [[[rows[:2], rows[2:5], rows[5:]]]], dict_encoded=(enc != "PLAIN"))
+        special.append((fs, dict(encoding=enc, page_stats=True)))
     return special
 
 
@@ -749,8 +759,15 @@ def evaluate(rep, tally, cases, impl, deaths):
         if out == "FAULT died" and c.line in died:
             tally.violation(f"the reader died on this case (rc={died[c.line][1]}): {rc.asan_summary(died[c.line][2])}", {"case": c.line})
             continue
+        try:
+            if c.kind == "col":
+                check_col(c, out, refs, tally)
+            else:
+                check_bat(c, out, refs, tally)
+        except Exception as e:        # output that does not even have the shape of a result: a violation, with the case
+            tally.violation(f"result line cannot be interpreted ({type(e).__name__}: {str(e)[:120]}): {out[:200]}", {"case": c.line, "got": out})
+            continue
         if c.kind == "col":
-            check_col(c, out, refs, tally)
             if c.tag == "ref" and isinstance(c.fs, rc.RawFile):
                 if refs.get((c.fs.text(), c.rg, c.col)) is None and out.startswith("OK"):
                     rep.tie_broken("one-shot read of a nested column differs from the ground truth of tools/pq.py (page "
@@ -762,8 +779,6 @@ def evaluate(rep, tally, cases, impl, deaths):
                     # that the file does not hold what the generator asked the writer to store
                     rep.tie_broken("one-shot read differs from what was written (writer or page decoding, outside C02): "
                                    f"{refs[(c.fs.text(), c.rg, c.col)]} vs {written}", c.line)
-        else:
-            check_bat(c, out, refs, tally)
     tally.cur_key = None
     rep.cov["input_distribution"] = dist
 
@@ -874,7 +889,7 @@ def spec_from_text(text):
 
 
 def proj_cols(fs, proj):
-    if proj == "all":
+    if proj in ("all", "i0", "n0"):
         return list(range(len(fs.cols)))
     if proj.startswith("i:"):
         return [int(x) for x in proj[2:].split(",")]
